@@ -10,6 +10,7 @@ import re
 
 from ..core.interp import Value, Const, Unknown
 from .normdom import NormDomain, Sym
+from ..core.norm import Rat
 
 
 class Pred(Value):
@@ -38,8 +39,30 @@ class Pred(Value):
         return hash(self.key())
 
 
+def _pure_abs(dom, r):
+    """the argument e when r is exactly |e| (one abs atom, coefficient 1), else None"""
+    ats = sorted(r.atoms())
+    if len(ats) == 1 and ats[0].startswith('abs(') and r == Rat(dom.R.atom(ats[0])):
+        info = dom.R.info.get(ats[0])
+        if info and info[0] == 'abs' and len(info[1]) == 1:
+            e = info[1][0]
+            return e if isinstance(e, Rat) else Rat(e)
+    return None
+
+
 def cmp_pred(dom, op, ra, rb):
-    """Canonical comparison predicate of two Rats."""
+    """Canonical comparison predicate of two Rats.  |e| <= b is -b <= e <= b and |e| >= b is e >= b or e <= -b (any real b), so a
+    region written with an absolute value and the one written with two one-sided tests have one normal form."""
+    if isinstance(op, (ast.LtE, ast.Lt, ast.GtE, ast.Gt)):
+        ea, eb = _pure_abs(dom, ra), _pure_abs(dom, rb)
+        if ea is not None and eb is None:
+            if isinstance(op, (ast.LtE, ast.Lt)):
+                return p_and(cmp_pred(dom, op, ea, rb), cmp_pred(dom, op, -ea, rb))
+            return p_or(cmp_pred(dom, op, ea, rb), cmp_pred(dom, op, -ea, rb))
+        if eb is not None and ea is None:
+            if isinstance(op, (ast.GtE, ast.Gt)):          # a >= |e|
+                return p_and(cmp_pred(dom, op, ra, eb), cmp_pred(dom, op, ra, -eb))
+            return p_or(cmp_pred(dom, op, ra, eb), cmp_pred(dom, op, ra, -eb))
     if isinstance(op, ast.LtE):
         return Pred('cmp', ('<=0', ra - rb))
     if isinstance(op, ast.Lt):
